@@ -1,4 +1,5 @@
 import RTA.Lemmas.MonoAnalyses
+import RTA.Lemmas.MonoRos
 /-! # C17 — response-time bounds are monotone in workload and supply
 
 Order on results: `Res.le`: `ok a ≤ ok b` iff `a ≤ b`; every `ok`/`div` is below a divergence
@@ -89,6 +90,82 @@ theorem hardenings :
    fun a C C' d h => scalar_cost_mono a C C' d h,
    fun o others d => sumNeed_cons_le o others d,
    fun pre post o seg' D A h => edfBlocking_seg_mono pre post o seg' h D A⟩
+
+/-! ### ROS 2 analyses (order `Res.leD`: `ok a ≤ ok b` iff `a ≤ b`; everything that is not a
+panic is below a divergence error, whatever offset the error records) -/
+
+/-- event source: more demand in every window, a weaker supply -/
+theorem ros_event_source_monotone (s s' : Supply) (hs : s.WF) (hs' : s'.WF) (hsup : s'.Weaker s)
+    (demand demand' : RB) (hwf : demand.ArrWF) (hex : demand.Exact)
+    (hwf' : demand'.ArrWF) (hex' : demand'.Exact)
+    (h : ∀ d, demand.need d ≤ demand'.need d) (limit : Nat) (hl : 1 ≤ limit) :
+    Res.leD (rosEventSource s demand limit) (rosEventSource s' demand' limit) :=
+  eventSource_mono s s' hs hs' hsup demand demand' hwf hex hwf' hex' h limit hl
+
+/-- timer: more interference, more blocking, a weaker supply (partial: the analysed
+callback's own model is kept fixed — the search space is pruned to its steps) -/
+theorem ros_timer_monotone_partial (s s' : Supply) (hs : s.WF) (hs' : s'.WF) (hsup : s'.Weaker s)
+    (a : Arr) (C : Nat) (hwf : a.WF) (hex : a.Exact) (hC : 1 ≤ C) (hpos : 0 < a.N 1)
+    (interf interf' : RB) (hwfi : interf.ArrWF) (hexi : interf.Exact)
+    (hwfi' : interf'.ArrWF) (hexi' : interf'.Exact)
+    (h : ∀ d, interf.need d ≤ interf'.need d) (B B' : Nat) (hB : B ≤ B') (limit : Nat) (hl : 1 ≤ limit) :
+    Res.leD (rosTimer s (.rbf a (.scalar C)) interf B limit)
+      (rosTimer s' (.rbf a (.scalar C)) interf' B' limit) :=
+  timer_mono s s' hs hs' hsup a C hwf hex hC hpos interf interf' hwfi hexi hwfi' hexi' h B B' hB limit hl
+
+/-- polling-point callback: more interference, a weaker supply (partial as above) -/
+theorem ros_polling_point_monotone_partial (s s' : Supply) (hs : s.WF) (hs' : s'.WF) (hsup : s'.Weaker s)
+    (a : Arr) (C : Nat) (hwf : a.WF) (hex : a.Exact) (hC : 1 ≤ C) (hpos : 0 < a.N 1)
+    (interf interf' : RB) (hwfi : interf.ArrWF) (hexi : interf.Exact)
+    (hwfi' : interf'.ArrWF) (hexi' : interf'.Exact)
+    (h : ∀ d, interf.need d ≤ interf'.need d) (limit : Nat) (hl : 1 ≤ limit) :
+    Res.leD (rosPollingPoint s (.rbf a (.scalar C)) interf limit)
+      (rosPollingPoint s' (.rbf a (.scalar C)) interf' limit) :=
+  pollingPoint_mono s s' hs hs' hsup a C hwf hex hC hpos interf interf' hwfi hexi hwfi' hexi' h limit hl
+
+/-- rr subchain analysis: a pointwise harder workload (every callback: same kind, no smaller
+assumed response-time bound, no fewer arrivals, no smaller costs; the end of the chain with a
+marginal cost that does not shrink — any scalar WCET), a weaker supply -/
+theorem ros_rr_monotone (s s' : Supply) (hs : s.WF) (hs' : s'.WF) (hsup : s'.Weaker s)
+    (wl wl' : List Callback) (sub : List Nat) (limit : Nat) (hl : 1 ≤ limit)
+    (hne : sub ≠ []) (hsub : ∀ i ∈ sub, i < wl.length)
+    (hwf : ∀ cb ∈ wl, cb.arr.WF ∧ MonoN cb.cost.ofJobs)
+    (hwf' : ∀ cb ∈ wl', cb.arr.WF ∧ MonoN cb.cost.ofJobs)
+    (hle : WorkloadLe wl wl')
+    (hω : ∀ e, sub.getLast? = some e → ∀ n n',
+      (wl.getD e default).cost.ofJobs (n + 1) - (wl.getD e default).cost.ofJobs n ≤
+      (wl'.getD e default).cost.ofJobs (n' + 1) - (wl'.getD e default).cost.ofJobs n') :
+    Res.leD (rrSubchain s wl sub limit) (rrSubchain s' wl' sub limit) :=
+  rr_mono s s' hs hs' hsup wl wl' sub limit hl hne hsub hwf hwf' hle hω
+
+/-- bw subchain analysis: the same -/
+theorem ros_bw_monotone (s s' : Supply) (hs : s.WF) (hs' : s'.WF) (hsup : s'.Weaker s)
+    (wl wl' : List Callback) (sub : List Nat) (limit : Nat) (hl : 1 ≤ limit)
+    (hne : sub ≠ []) (hsub : ∀ i ∈ sub, i < wl.length)
+    (hwf : ∀ cb ∈ wl, cb.arr.WF ∧ cb.arr.Exact ∧ MonoN cb.cost.ofJobs)
+    (hwf' : ∀ cb ∈ wl', cb.arr.WF ∧ cb.arr.Exact ∧ MonoN cb.cost.ofJobs)
+    (hpos : ∀ e, sub.getLast? = some e → 0 < (wl.getD e default).arr.N 1)
+    (hle : WorkloadLe wl wl')
+    (hω : ∀ e, sub.getLast? = some e → ∀ n n',
+      (wl.getD e default).cost.ofJobs (n + 1) - (wl.getD e default).cost.ofJobs n ≤
+      (wl'.getD e default).cost.ofJobs (n' + 1) - (wl'.getD e default).cost.ofJobs n')
+    (dbg : Bool) :
+    Res.leD (bwSubchain s wl sub limit dbg) (bwSubchain s' wl' sub limit dbg) :=
+  bw_mono s s' hs hs' hsup wl wl' sub limit hl hne hsub hwf hwf' hpos hle hω dbg
+
+/-- the supply hardenings (smaller budget, later deadline, reservation instead of a dedicated
+processor) and the callback hardenings (larger scalar WCET, more arrivals, a larger assumed
+response-time bound) produce the orders used above -/
+theorem ros_hardenings :
+    ((∀ Q Q' P, 1 ≤ Q' → Q' ≤ Q → Q ≤ P → (Supply.periodic Q' P).Weaker (.periodic Q P)) ∧
+     (∀ Q Q' D P, 1 ≤ Q' → Q' ≤ Q → Q ≤ D → D ≤ P → (Supply.constrained Q' D P).Weaker (.constrained Q D P)) ∧
+     (∀ Q D D' P, 1 ≤ Q → Q ≤ D → D ≤ D' → D' ≤ P → (Supply.constrained Q D' P).Weaker (.constrained Q D P)) ∧
+     (∀ Q P, 1 ≤ Q → Q ≤ P → (Supply.periodic Q P).Weaker .dedicated)) ∧
+    (∀ (rtb rtb' : Nat) (a a' : Arr) (C C' : Nat) (k : CbKind), rtb ≤ rtb' → (∀ d, a.N d ≤ a'.N d) → C ≤ C' →
+      Callback.Le ⟨rtb, a, .scalar C, k⟩ ⟨rtb', a', .scalar C', k⟩ ∧
+      (∀ n n', (Cost.scalar C).ofJobs (n + 1) - (Cost.scalar C).ofJobs n ≤
+        (Cost.scalar C').ofJobs (n' + 1) - (Cost.scalar C').ofJobs n')) :=
+  ⟨weaker_supplies, fun rtb rtb' a a' C C' k hr ha hC => scalar_callback_le rtb rtb' a a' C C' k hr ha hC⟩
 
 /-- the analysed task's OWN last non-preemptive segment is not a hardening: lengthening it
 protects the job earlier and can shorten the bound (witness) -/
